@@ -47,6 +47,9 @@ def install(spec: Spec):
                          ('fresh_unset', 'implies(old(self.' + fld + ') is None and result is not None, fresh_object(result) and not result.ev_set)', ['C03'])])
         P[(cls, prop)] = cls + '.' + prop
 
+    # class invariant of EventResult (pydantic Literal field; the only writers are the constructor and update(), which re-establishes it)
+    spec.type_invariants['EventResult'] = "x.status == 'pending' or x.status == 'started' or x.status == 'completed' or x.status == 'error'"
+
     # ------------------------------------------------------------------ EventResult.update (C08 C11 C12)
     K = 'old(kwargs)'
     PLAIN = "'result' in " + K + " and not isinstance(" + K + "['result'], BaseException) and 'error' not in " + K + " and 'status' not in " + K
@@ -64,7 +67,7 @@ def install(spec: Spec):
                 ('untyped_identity', 'implies(' + PLAIN + ' and not (' + NEEDS_VALIDATION + "), self.status == 'completed' and self.result is " + K + "['result'])", ['C12']),
                 ('returned_exception_converted', "implies('result' in " + K + " and isinstance(" + K + "['result'], BaseException), "
                                                  "self.status == 'error' and self.error is " + K + "['result'] and self.result is None)", ['C11', 'C12']),
-                ('error_recorded', "implies('error' in " + K + " and isinstance(" + K + "['error'], BaseException) and 'status' not in " + K + ", "
+                ('error_recorded', "implies('error' in " + K + " and isinstance(" + K + "['error'], BaseException) and 'status' not in " + K + " and not ('result' in " + K + " and isinstance(" + K + "['result'], BaseException)), "
                                    "self.status == 'error' and self.error is " + K + "['error'])", ['C11', 'C10']),
                 ('status_only', "implies('status' in " + K + " and 'result' not in " + K + " and 'error' not in " + K + ", self.status == " + K + "['status'] "
                                 "and self.result is old(self.result) and self.error is old(self.error))", ['C01']),
